@@ -619,3 +619,68 @@ for _u in _c16["UNITS"]:
         _u.template = "../C16/" + _u.template
         UNITS.append(_u)
 META["trusted_base"] = list(META.get("trusted_base", [])) + ["unit c16.rtcfg.reconfigure is the C16 unit of the same name (specs/C16/reconf.c) with its trusted base"]
+
+
+# ---- the chain that carries the configured stack sizes to the place where a stack is sized (written by main, round 10) ----
+RC_CPP = "libs/pika/runtime_configuration/src/runtime_configuration.cpp"
+TM_CPP = "libs/pika/thread_manager/src/thread_manager.cpp"
+TQIP_HPP = "libs/pika/threading_base/include/pika/threading_base/thread_queue_init_parameters.hpp"
+SB_HPP2 = "libs/pika/threading_base/include/pika/threading_base/scheduler_base.hpp"
+_SZ_ENUM = Sub(r"(?:pika::)?execution::thread_stacksize::(\w+)", r"thread_stacksize_\1", None)
+_SZ_MAX = Sub(r"\(std::numeric_limits<std::ptrdiff_t>::max\)\(\)", "VX_PTRDIFF_MAX", None)
+_SZ_DEFAULT_FIRST = Sub(r"\bdefault:\s*(case\s+\w+:)", r"\1 default:", None)     # `default: case X:` -> C accepts both orders; keep one spelling
+
+
+class _TqipCtor(Lift):
+    """constructor of thread_queue_init_parameters: the mem-initialiser list `a_(x), ...` becomes `self->a_ = (x);` statements"""
+
+    def run(self):
+        from vx.lift import locate as _loc, match_close as _mc, split_args as _sa, resolve_pp as _rp, apply_rules as _ar, GENERIC_RULES as _GR
+        body, line, header = _loc(self.src, self.locate, self.which, self.expect, ctor=True)
+        op = header.index("(")
+        rest = header[_mc(header, op) + 1:].strip()
+        if not rest.startswith(":"):
+            raise LiftError("no mem-initialiser list")
+        st = []
+        for item in _sa(rest[1:]):
+            m = re.match(r"\s*(\w+)\s*[({](.*)[)}]\s*$", item, re.S)
+            if not m:
+                raise LiftError("cannot parse initialiser %r" % item)
+            st.append("self->%s = (%s);" % (m.group(1), m.group(2).strip()))
+        text = "{ " + " ".join(st) + " " + body.strip()[1:]
+        text = _ar(_ar(_rp(text), self.rules), _GR)
+        return {"text": text, "line": line, "file": self.src, "raw": header + body, "nloops": 0, "header": header}
+
+
+UNITS += [
+    Unit("sizes.rtcfg.get_stack_size", "sizes.c", defines=["U_RTCFG_GET"], enforce="rtcfg_get_stack_size",
+         lifts={"body": Lift(RC_CPP, r"std::ptrdiff_t runtime_configuration::get_stack_size\(\s*execution::thread_stacksize stacksize\) const",
+                             rules=[_SZ_ENUM, _SZ_MAX, Members(["small_stacksize", "medium_stacksize", "large_stacksize", "huge_stacksize"],
+                                            optional=["small_stacksize", "medium_stacksize", "large_stacksize", "huge_stacksize"])])},
+         funcs=[RC_CPP + ": runtime_configuration::get_stack_size"], min_obligations=3,
+         doc="F: the cached size of exactly the requested class"),
+    Unit("sizes.tm.ctor_fragment", "sizes.c", defines=["U_TM_FRAGMENT"], enforce="tm_ctor_fragment",
+         lifts={"body": Lift(TM_CPP, r"std::ptrdiff_t small_stacksize = rtcfg_\.get_stack_size", fragment_end=r"huge_stacksize\);", rules=[
+             _SZ_ENUM,
+             Call(r"\brtcfg_\.get_stack_size", "rtcfg_get_stack_size(self->rtcfg_, {0})", None),
+             # the constructor call: arguments 10..13 are the four sizes (positions pinned by sizes.tqip.ctor's signature)
+             Call(r"\bthread_queue_init_parameters thread_queue_init", "tqip_make({10}, {11}, {12}, {13})", 1)])},
+         funcs=[TM_CPP + ": thread_manager::thread_manager (fragment: the four stack sizes read from the configuration and handed to thread_queue_init_parameters)"],
+         min_obligations=5,
+         doc="F: the scheduler parameters carry, per class, the configured size of that class"),
+    Unit("sizes.tqip.ctor", "sizes.c", defines=["U_TQIP_CTOR"], enforce="tqip_ctor",
+         lifts={"body": _TqipCtor(TQIP_HPP, r"thread_queue_init_parameters\(\s*std::int64_t max_thread_count\b", rules=[_SZ_MAX])},
+         funcs=[TQIP_HPP + ": thread_queue_init_parameters::thread_queue_init_parameters"], min_obligations=5,
+         doc="F: every parameter initialises the member of the same name (14 same-typed neighbours)"),
+    Unit("sizes.sb.get_stack_size", "sizes.c", defines=["U_SB_GET"], enforce="sb_get_stack_size",
+         lifts={"body": Lift(SB_HPP2, r"std::ptrdiff_t get_stack_size\(execution::thread_stacksize stacksize\) const", rules=[
+             _SZ_ENUM, _SZ_MAX,
+             Sub(r"\bthreads::detail::get_self_stacksize_enum\(\)", "get_self_stacksize_enum()", None),
+             Call(r"\bPIKA_ASSERT_MSG", "VX_PIKA_ASSERT({0})", None),
+             Members(["thread_queue_init_"])])},
+         funcs=[SB_HPP2 + ": scheduler_base::get_stack_size"], min_obligations=5,
+         doc="F: the member of exactly the requested class; `current` = the class of the calling task"),
+]
+META["trusted_base"] = list(META.get("trusted_base", [])) + [
+    "specs/C12/sizes.c: rtcfg_get_stack_size (in sizes.tm.ctor_fragment: the contract proved by sizes.rtcfg.get_stack_size, as an array read), "
+    "tqip_make (the constructor's parameter order as proved by sizes.tqip.ctor), get_self_stacksize_enum (returns the calling task's class)"]
